@@ -48,12 +48,14 @@ pub fn run(ctx: &Ctx) -> i32 {
             cases.push(Cli { name: format!("seed{i}"), text: Some(print_plain(&p)), image: None, uses_ext: "none" });
         }
     }
-    let flags: [&[&str]; 4] = [&[], &["-f", "stack"], &["--features", "stack"], &["--features="]];
+    // the list syntax of the flag value (features.rs): empty entries are skipped, so `,stack`,
+    // `stack,` and `,,stack` all switch the extension on and `,` switches nothing on
+    let flags: [&[&str]; 8] = [&[], &["-f", "stack"], &["--features", "stack"], &["--features="], &["-f", ",stack"], &["--features=stack,"], &["-f", ",,stack"], &["-f", ","]];
     let parts = pooled(None, cases.len() * flags.len(), 1, Acc::new, |acc, k| {
         let c = &cases[k / flags.len()];
         let fi = k % flags.len();
         let flag = flags[fi];
-        let on = fi == 1 || fi == 2;
+        let on = matches!(fi, 1 | 2 | 4 | 5 | 6);
         acc.eval("cli");
         let case = json!({"cli": true, "name": c.name, "source": c.text, "image": c.image, "flag": flag});
         let base = format!("k{k}");
